@@ -41,7 +41,7 @@ func offsetOf(src []byte, line, col int) int {
 
 func checkPositions(res *Result, src []byte) {
 	v := guarded(opTimeout, func() string {
-		var out, log bytes.Buffer
+		var out, log capBuf
 		prog, perr := bcl.Parse(src, "input", bcl.OptOutput(&out), bcl.OptLogger(&log))
 		texts := []string{log.String()}
 		if perr == nil {
@@ -67,6 +67,13 @@ func checkPositions(res *Result, src []byte) {
 				texts = append(texts, err.Error())
 			}
 			texts = append(texts, log.String())
+			// the same program executed again reports the same locations
+			first := log.String()
+			log.Reset()
+			_, _, err2 := bcl.Execute(prog)
+			if log.String() != first || fmt.Sprint(err2) != fmt.Sprint(err) {
+				return fmt.Sprintf("FAIL second execution reports %q / %v, the first %q / %v", log.String(), err2, first, err)
+			}
 		}
 		n := 0
 		for _, t := range texts {
@@ -162,16 +169,33 @@ func streamPositions(ctx *Ctx) *Result {
 			lfs = append(lfs, x)
 			x++
 		}
-		pos := r.Intn(x + 3)
-		l, c := bcl.VerifLineCol(lfs, pos)
+		// several lookups in random order on one calculator (any state it keeps between
+		// lookups is exercised), each compared with the model
+		np := 1 + r.Intn(5)
+		var poss []int
+		for k := 0; k < np; k++ {
+			q := r.Intn(x + 3)
+			if len(lfs) > 0 && r.Intn(2) == 0 {
+				q = lfs[r.Intn(len(lfs))] + r.Intn(3) - 1 // at and around a newline offset
+				if q < 0 {
+					q = 0
+				}
+			}
+			poss = append(poss, q)
+		}
+		got := bcl.VerifLineCols(lfs, poss)
 		arg := "-"
 		if len(lfs) > 0 {
 			arg = intsCSV(lfs)
 		}
-		m := ask(d, fmt.Sprintf("LINECOL %s %d", arg, pos))
-		res.Eval(1)
-		if m != fmt.Sprintf("%d:%d", l, c) {
-			res.Fail(Failure{Kind: "model-diff", Op: fmt.Sprintf("LINECOL %s %d", arg, pos), Impl: fmt.Sprintf("%d:%d", l, c), Model: m, Note: "lineColAt"})
+		for k, pos := range poss {
+			m := ask(d, fmt.Sprintf("LINECOL %s %d", arg, pos))
+			res.Eval(1)
+			if m != fmt.Sprintf("%d:%d", got[k][0], got[k][1]) {
+				res.Fail(Failure{Kind: "model-diff", Op: fmt.Sprintf("LINECOL %s %d (lookup %d of %v on one calculator)", arg, pos, k+1, poss),
+					Impl: fmt.Sprintf("%d:%d", got[k][0], got[k][1]), Model: m, Note: "lineColAt"})
+				break
+			}
 		}
 	})
 	return res
@@ -230,7 +254,7 @@ func streamLimits(ctx *Ctx) *Result {
 	}
 	run := func(d *Driver, src []byte, model bool) {
 		v := guarded(opTimeout, func() string {
-			var out, log bytes.Buffer
+			var out, log capBuf
 			o := []bcl.Option{bcl.OptOutput(&out), bcl.OptLogger(&log)}
 			p, err := bcl.Parse(src, "x", o...)
 			if err == nil && p == nil {
@@ -337,7 +361,7 @@ func streamWF(ctx *Ctx) *Result {
 			return
 		}
 		dump := field(line, "dump")
-		if len(dump) > 60000 {
+		if len(dump) > 400000 {
 			res.Count("skipped-large", 1)
 			return
 		}
@@ -373,9 +397,15 @@ func streamWF(ctx *Ctx) *Result {
 	}
 	ladder := limitLadder()
 	parallel(ctx.Pool, ctx.Seed, len(ladder), func(i int, r *rand.Rand, d *Driver) {
-		if len(ladder[i]) < 20000 {
+		// the long-jump cases are rejected by the compiler ("jump too long"); should one be
+		// accepted, its jumps are verified like any other
+		if len(ladder[i]) < 20000 || strings.HasPrefix(ladder[i], "print false and") || strings.HasPrefix(ladder[i], "print true or") {
 			check(d, []byte(ladder[i]))
 		}
+	})
+	parallel(ctx.Pool, ctx.Seed+13, ctx.N(80), func(i int, r *rand.Rand, d *Driver) {
+		check(d, []byte(WideProgram(r)))
+		res.Count("wide", 1)
 	})
 	parallel(ctx.Pool, ctx.Seed+2, ctx.N(2500), func(i int, r *rand.Rand, d *Driver) {
 		g := NewGen(r)
@@ -399,7 +429,7 @@ func streamMutants(ctx *Ctx) *Result {
 	vocab := []string{"var", "def", "eval", "print", "bind", "true", "nil", "not", "and", "or", "=", "{", "}", "(", ")", "==", "<", "+", "-", "*", ":", "->", ";", "x", "1", `"s"`, "2.5", "@"}
 	oracle := func(src []byte) (accepted bool, ok bool) {
 		v := guarded(opTimeout, func() string {
-			var out, log bytes.Buffer
+			var out, log capBuf
 			res1, b1, err := bcl.Interpret(src, bcl.OptOutput(&out), bcl.OptLogger(&log))
 			rejected := err != nil && err.Error() == "combined errors from parse"
 			lines := strings.Split(strings.TrimSuffix(log.String(), "\n"), "\n")
@@ -519,7 +549,7 @@ func streamMutants(ctx *Ctx) *Result {
 				off += len(sep)
 			}
 		}
-		var log bytes.Buffer
+		var log capBuf
 		_, _, err := bcl.Interpret([]byte(src), bcl.OptOutput(io.Discard), bcl.OptLogger(&log))
 		res.Eval(1)
 		res.Count("recovery", 1)
@@ -590,7 +620,7 @@ func streamOptions(ctx *Ctx) *Result {
 		out, log, rest string
 	}
 	runOpts := func(src []byte, dis, tr, st bool) outcome {
-		var out, log bytes.Buffer
+		var out, log capBuf
 		o := []bcl.Option{bcl.OptOutput(&out), bcl.OptLogger(&log), bcl.OptDisasm(dis), bcl.OptTrace(tr), bcl.OptStats(st)}
 		res1, b1, err := bcl.Interpret(src, o...)
 		e := "-"
